@@ -126,7 +126,7 @@ def main():
             out.append('    open spec fn resp_spec(&self, cv: Seq<(Seq<char>, Seq<char>)>, bin: Option<Seq<u8>>) -> Option<Self::Response> { arbitrary() }')
         out.append('  >>>')
         out.append('lift fn "<%s as Command>::command"' % k)
-        out.append('  props C15\n  implicit C12')
+        out.append('  props C15\n  implicit C12 C15')
         if c['extra']: out.append(c['extra'].rstrip('\n'))
         out.append('  prologue <<<\n        proof { lemma_command_words(); lemma_keywords(); }\n        broadcast use dec_text_digits, lemma_num_arg_ok, lemma_range_arg_ok;\n  >>>')
         if not c['unit']:
